@@ -4,7 +4,7 @@ CONSTANTS
   Req <- MCReq
   Aborting = {}
   NT = 3
-  Registrar = 4
+  Registrar = 0
   Collector = 5
   Mutant = "none"
 PROPERTIES Live_C10_AllDone
